@@ -181,11 +181,47 @@ pub fn cmd_worker(args: &[String]) -> i32 {
     let mut known: BTreeMap<String, u64> = BTreeMap::new();
     let (mut n_runs, mut n_ops, mut n_steps) = (0u64, 0u64, 0u64);
     let mut k = from;
+    // Watchdog: a run that does not return (a stall inside the scheduler library, or a loop in the code
+    // under test that takes no lock) must not hang the check. The main loop publishes its results so far
+    // about once a second; a real thread notices when no run has finished for STALL_S seconds, writes that
+    // snapshot with the stalled run recorded, and ends the worker.
+    let stall_s: u64 = std::env::var("VERIF_STALL_S").ok().and_then(|s| s.parse().ok()).unwrap_or(90);
+    let snapshot: std::sync::Arc<std::sync::Mutex<(String, u64, Instant)>> = std::sync::Arc::new(std::sync::Mutex::new((String::new(), 0, Instant::now())));
+    {
+        let (snapshot, out, prop) = (snapshot.clone(), out.clone(), prop.clone());
+        std::thread::spawn(move || loop {
+            std::thread::sleep(std::time::Duration::from_secs(2));
+            let g = snapshot.lock().unwrap_or_else(|e| e.into_inner());
+            if g.2.elapsed().as_secs() > stall_s {
+                let mut v: Value = serde_json::from_str(&g.0).unwrap_or_else(|_| json!({"runs": 0, "ops": 0, "steps": 0, "stats": {}, "states": [], "nontrivial": [], "inconclusive": {}, "samples": [], "violations": [], "known": {}, "wall_ms": 0}));
+                v["stalled"] = json!({"property": prop, "run_seed": g.1, "seconds": stall_s});
+                let _ = std::fs::write(&out, serde_json::to_string(&v).unwrap());
+                let _ = std::fs::remove_dir_all(crate::backends::scratch_root());
+                std::process::exit(0);
+            }
+        });
+    }
+    let mut last_snapshot = Instant::now();
     while k < runs {
         if t0.elapsed().as_millis() as u64 > deadline_ms {
             break;
         }
         let seed = run_seed(base, &prop, k);
+        {
+            let mut g = snapshot.lock().unwrap_or_else(|e| e.into_inner());
+            g.1 = seed;
+            g.2 = Instant::now();
+            if g.0.is_empty() || last_snapshot.elapsed().as_millis() > 1500 {
+                g.0 = serde_json::to_string(&json!({
+                    "runs": n_runs, "ops": n_ops, "steps": n_steps, "stats": stats,
+                    "states": states.iter().map(|x| format!("{:x}", x)).collect::<Vec<_>>(),
+                    "nontrivial": nontrivial.iter().map(|x| format!("{:x}", x)).collect::<Vec<_>>(),
+                    "inconclusive": inconclusive, "samples": samples, "violations": violations, "known": known,
+                    "wall_ms": t0.elapsed().as_millis() as u64,
+                })).unwrap();
+                last_snapshot = Instant::now();
+            }
+        }
         let r = runner::generate(&prop, seed);
         k += stride;
         if let Some(v) = &r.violation {
@@ -193,7 +229,8 @@ pub fn cmd_worker(args: &[String]) -> i32 {
                 *known.entry(format!("{} {}", f.class, f.text)).or_insert(0) += 1;
                 continue; // a run that meets a listed finding is not counted as coverage
             }
-            // minimise, write the replay file
+            // minimise, write the replay file (the watchdog is told to be patient meanwhile)
+            snapshot.lock().unwrap_or_else(|e| e.into_inner()).2 = Instant::now() + std::time::Duration::from_secs(900);
             let (cfg2, ops2, tried) = runner::shrink(&r.cfg, &r.ops, &v.class, 600);
             let rr = runner::replay(&cfg2, &ops2);
             let (cfg2, ops2, v2) = match rr.violation {
@@ -283,8 +320,21 @@ pub fn cmd_check(args: &[String]) -> i32 {
     let mut violations: Vec<Value> = vec![];
     let (mut n_runs, mut n_ops, mut n_steps) = (0u64, 0u64, 0u64);
     let mut harness_error = false;
+    let hard_limit = std::time::Duration::from_millis(deadline_ms) + std::time::Duration::from_secs(1500);
+    let mut stalled: Vec<Value> = vec![];
     for (mut c, out) in children {
-        let st = c.wait().expect("wait");
+        let st = loop {
+            match c.try_wait().expect("wait") {
+                Some(st) => break st,
+                None if t0.elapsed() > hard_limit => {
+                    let _ = c.kill();
+                    eprintln!("HARNESS-ERROR worker did not end within the hard limit and was killed");
+                    harness_error = true;
+                    break c.wait().expect("wait");
+                }
+                None => std::thread::sleep(std::time::Duration::from_millis(50)),
+            }
+        };
         let txt = std::fs::read_to_string(&out).unwrap_or_default();
         let v: Value = match serde_json::from_str(&txt) {
             Ok(v) => v,
@@ -294,6 +344,9 @@ pub fn cmd_check(args: &[String]) -> i32 {
                 continue;
             }
         };
+        if !v["stalled"].is_null() {
+            stalled.push(v["stalled"].clone());
+        }
         n_runs += v["runs"].as_u64().unwrap_or(0);
         n_ops += v["ops"].as_u64().unwrap_or(0);
         n_steps += v["steps"].as_u64().unwrap_or(0);
@@ -370,6 +423,17 @@ pub fn cmd_check(args: &[String]) -> i32 {
             confirmed.push(v);
         } else {
             eprintln!("HARNESS-ERROR replay of {} did not reproduce the violation (exit {:?})\n{}", path, o.status.code(), so);
+            harness_error = true;
+        }
+    }
+    for st in &stalled {
+        // A run that never returned and was not reported by the lock shims / the scheduler's deadlock
+        // detection. Under C08 in the sequential build that is exactly what the property forbids and what
+        // only this watchdog can see; elsewhere it is recorded and the rest of the worker's batch is lost.
+        println!("WATCHDOG a run did not return within {} s: property={} run_seed={}", st["seconds"], st["property"], st["run_seed"]);
+        *inconclusive.entry("run did not return (watchdog)".to_string()).or_insert(0) += 1;
+        if prop == "C08" && crate::seam::FLAVOUR == "seq" {
+            eprintln!("HARNESS-ERROR C08: a run stalled without a lock being involved; reproduce with `meldasim one C08 {}`", st["run_seed"]);
             harness_error = true;
         }
     }
